@@ -5,3 +5,6 @@ import Props.C02
 #print axioms Sched.InvB_step
 #print axioms Sched.InvB_init
 #print axioms Sched.spec_eq
+#print axioms Sched.exec_at_most_once
+#print axioms Sched.exec_count_eq_spec
+#print axioms Sched.InvE_step
